@@ -530,8 +530,9 @@ impl<'a> Sc<'a> {
                     s.woken[t] = false;
                     s.mtx_owner[m] = ti;
                     Self::acq(&mut s.ck, t, |c| c.mtx[m], true, true);
-                    // notifier -> woken thread: direct edge only in hb_max
-                    Self::acq(&mut s.ck, t, |c| c.wake[t], false, true);
+                    // notifier -> woken thread (the property lists it: "the notifier's prior writes
+                    // happen-before the woken thread's continuation")
+                    Self::acq(&mut s.ck, t, |c| c.wake[t], true, true);
                     if pred {
                         // back to the predicate check (still the same op)
                         s.phase[t] = 0;
